@@ -712,9 +712,14 @@ func runCase(c Case) *vt.Outcome {
 		// double crash (thorough tier, short histories): crash again at sampled steps of a follow-up load on a copy of
 		// the recovered store; the lake must again be readable with all-or-nothing effect and usable afterwards
 		if vt.Thorough() && len(c.Prefix) <= 8 && c.Victim.Kind != "init" && c.Victim.Kind != "droppool" {
-			if f := doubleCrash(ctx, &c, o, store, mode, st, k); f != nil {
-				o.Fail = f
-				return o
+			// only from a healthy once-recovered store (a store on which the plain follow-up fails is reported below
+			// under the FIRST crash's class)
+			probe := store.Clone()
+			if pst, pcold, _, poe := observe(ctx, probe, mode); poe == nil && followUp(ctx, pcold, pst, c.Victim) == nil {
+				if f := doubleCrash(ctx, &c, o, store, mode, st, k); f != nil {
+					o.Fail = f
+					return o
+				}
 			}
 		}
 		if err := followUp(ctx, cold, st, c.Victim); err != nil {
